@@ -13,6 +13,7 @@ from . import faces
 CC = "voronoi/convex_cell.rs"
 
 
+@isolated('clipwire')
 def obligations(prefix):
     u = Unit(CC, "ConvexCell::clip_by_plane")
     loops = extract.find_nodes(u.fn["body"], lambda n: n.get("k") == "while")
